@@ -17,7 +17,7 @@ RULE = (
     "Object x: a zoo leaf (every class with a builder), a leaf under adjoint/pow/ctrl wrappers, a nested arithmetic expression (C03's generator) "
     "or a measurement process (C04's generator). For f in {copy.copy, copy.deepcopy, pickle.loads(pickle.dumps), qp.pytrees.unflatten(flatten), "
     "jax.tree_util.tree_unflatten(tree_flatten), capture primitive bind + eval_jaxpr (integer wires only, as in the library's own validity check)}: "
-    "type(f(x)) is type(x), f(x) is not x, qp.equal(x, f(x)) and qp.equal(f(x), x). Deep copy: no numpy leaf of the copy shares memory with the "
+    "type(f(x)) is type(x), f(x) is not x, f(x).wires == x.wires, qp.equal(x, f(x)) and qp.equal(f(x), x). Deep copy: no numpy leaf of the copy shares memory with the "
     "original and overwriting every array of the copy in place leaves the original equal to a fresh rebuild. Rebinding: y = the same spec with all "
     "numeric parameters shifted (probabilities halved, matrix seeds changed), built independently; z = bind_new_parameters(x, y.data) must have "
     "type(x), data equal to y.data exactly, qp.equal(z, y) (so wires / hyperparameters are unchanged) and x must still equal a fresh rebuild. "
@@ -172,6 +172,38 @@ def _arrays(obj, seen=None, depth=0, tag="other"):
     return out
 
 
+def _root(a, how, default):
+    """Bucket name from the input class (so that one root cause is one bucket whatever wrapper surrounds it)."""
+    r = repr(a)
+    if how == "bind":
+        for n in ("ControlledQubitUnitary", "BlockEncode", "TemporaryAND", "GQSP"):
+            if f"'{n}'" in r:
+                return "bind:contains-" + n
+        if "'cob'" in r:
+            return "bind:contains-ChangeOpBasis"
+        for n, (_, _, t) in zoo.ZOO.items():
+            if "opargs" in t and f"'{n}'" in r:
+                return "bind:operator-valued-hyperparameter:" + n
+    if how in ("pytree", "jax-pytree", "pickle", "copy", "deepcopy") and "'StronglyEntanglingLayers'" in r:
+        return how + ":contains-StronglyEntanglingLayers"
+    if how == "capture":
+        if "'ww':" in r:
+            return "capture:controlled-with-work-wires"
+        if _adjoint_of_wrapper(a):  # the operator primitive stores adjoint as a flag and controls as a count: nesting is canonicalised
+            return "capture:adjoint-of-wrapper"
+    return default
+
+
+def _adjoint_of_wrapper(s):
+    if isinstance(s, dict):
+        if s.get("op") == "adjoint" and isinstance(s.get("base"), dict) and any(k in s["base"] for k in ("base", "operands", "compute")):
+            return True
+        return any(_adjoint_of_wrapper(v) for v in s.values())
+    if isinstance(s, list):
+        return any(_adjoint_of_wrapper(v) for v in s)
+    return False
+
+
 def _same(x, y):
     import pennylane as qp
 
@@ -201,15 +233,17 @@ def check(spec):
             origin, where = _origin(ex.__traceback__)
             if origin != "sut" and not isinstance(ex, (pickle.PicklingError, AttributeError, TypeError)):
                 raise
-            raise Viol(f"{how}-raises", f"{type(ex).__name__}: {str(ex)[:300]} for {a} -> {x!r}", sig=f"{sig}:{how}:{type(ex).__name__}",
+            raise Viol(f"{how}-raises", f"{type(ex).__name__}: {str(ex)[:300]} for {a} -> {x!r}", sig=_root(a, how, f"{sig}:{how}:{type(ex).__name__}"),
                        features={**feats, "path": how, "exc": type(ex).__name__}) from None
         if type(y) is not type(x):
-            raise Viol(f"{how}-type", f"{type(y).__name__} instead of {tname} for {a}", sig=f"{sig}:{how}", features={**feats, "path": how})
+            raise Viol(f"{how}-type", f"{type(y).__name__} instead of {tname} for {a}", sig=_root(a, how, f"{sig}:{how}"), features={**feats, "path": how})
         if y is x:
             raise Viol(f"{how}-same-object", f"{how} returned the original object for {a}", sig=f"{sig}:{how}", features={**feats, "path": how})
         same = _same(x, y) if how != "capture" else bool(qp.equal(x, y, check_interface=False, check_trainability=False))
         if not same:
-            raise Viol(f"{how}-not-equal", f"qp.equal(x, {how}(x)) is False for {a} -> {x!r} vs {y!r}", sig=f"{sig}:{how}", features={**feats, "path": how})
+            raise Viol(f"{how}-not-equal", f"qp.equal(x, {how}(x)) is False for {a} -> {x!r} vs {y!r}", sig=_root(a, how, f"{sig}:{how}"), features={**feats, "path": how})
+        if list(y.wires) != list(x.wires):
+            raise Viol(f"{how}-wires", f"wires {list(y.wires)} instead of {list(x.wires)} for {a}", sig=f"{sig}:{how}", features={**feats, "path": how})
         labels.append("ok:" + how)
         return y
 
@@ -287,14 +321,14 @@ def check(spec):
                 origin, where = _origin(ex.__traceback__)
                 if origin != "sut":
                     raise
-                raise Viol("bind-raises", f"{type(ex).__name__}: {str(ex)[:300]} for {a} -> {x!r}", sig=f"{sig}:bind:{type(ex).__name__}",
+                raise Viol("bind-raises", f"{type(ex).__name__}: {str(ex)[:300]} for {a} -> {x!r}", sig=_root(a, "bind", f"{sig}:bind:{type(ex).__name__}"),
                            features={**feats, "path": "bind", "exc": type(ex).__name__}) from None
             if type(z) is not type(x):
                 raise Viol("bind-type", f"{type(z).__name__} instead of {tname} for {a}", sig=f"{sig}:bind", features=feats)
             if len(z.data) != len(y.data) or not all(np.shape(p) == np.shape(q) and np.array_equal(np.asarray(p), np.asarray(q)) for p, q in zip(z.data, y.data)):
-                raise Viol("bind-data", f"bind_new_parameters(x, new).data != new for {a}: got {z.data} wanted {y.data}", sig=f"{sig}:bind", features=feats)
+                raise Viol("bind-data", f"bind_new_parameters(x, new).data != new for {a}: got {z.data} wanted {y.data}", sig=_root(a, "bind", f"{sig}:bind"), features=feats)
             if not _same(z, y):
-                raise Viol("bind-not-equal-to-twin", f"bind_new_parameters(x, y.data) is not qp.equal to y for {a}: {z!r} vs {y!r}", sig=f"{sig}:bind", features=feats)
+                raise Viol("bind-not-equal-to-twin", f"bind_new_parameters(x, y.data) is not qp.equal to y for {a}: {z!r} vs {y!r}", sig=_root(a, "bind", f"{sig}:bind"), features=feats)
             if not _same(x, c04._build(a)):  # noqa: SLF001
                 raise Viol("bind-mutated-original", f"bind_new_parameters changed its input for {a}", sig=f"{sig}:bind", features=feats)
             labels.append("ok:bind")
